@@ -11,6 +11,7 @@
 import HctlProofs.Lemmas.CacheBasics
 import HctlProofs.Props.C12
 import HctlProofs.Props.C07
+import HctlProofs.Lemmas.CanonRender
 namespace Hctl
 open Kripke
 
@@ -29,7 +30,7 @@ def UnitDesc (E : Env) (K : SemCtx) (U0 U : CSet) (ds : List (Option Name)) : Pr
 
 /-- a legitimate call of `eval_node`: preprocessed sub-formula `t` at quantifier depth `ds.length`, in the
 unit set `U` described by the open domains `ds` -/
-structure GoodQ (E : Env) (K : SemCtx) (U0 : CSet) (t : Tree) (U : CSet) (ds : List (Option Name)) : Prop where
+structure GoodQ (C : CharClass) (E : Env) (K : SemCtx) (U0 : CSet) (t : Tree) (U : CSet) (ds : List (Option Name)) : Prop where
   wscoped : WellScoped E.G.k ds.length t
   named : DepthNamed ds.length t
   dk : ds.length ≤ E.G.k
@@ -39,6 +40,7 @@ structure GoodQ (E : Env) (K : SemCtx) (U0 : CSet) (t : Tree) (U : CSet) (ds : L
   labelled : C07.PropsOK (fun n => (E.G.label n).isSome) t
   unit : UnitOK E U0 (Ops.steadyOf E U0) U ds.length
   desc : UnitDesc E K U0 U ds
+  valid : Lex.TreeOK C t ∧ PropNamesOK t
 
 /-- no quantifier with a restricted domain is open whose variable does not occur in the sub-formula -/
 def NoForeign (ren : List (Name × Name)) (ds : List (Option Name)) : Prop :=
@@ -51,34 +53,34 @@ def wkey (w : Name) : Key := ('%' :: w ++ ['%'], [])
 same key (canonical text + canonical domains), at most one variable, and the first was evaluated without
 foreign restriction, then renaming the first one's set back along the renamings and intersecting with the
 second one's unit yields exactly the second one's satisfaction set — and the renaming does not fault. -/
-def KeySem (E : Env) (K : SemCtx) (U0 : CSet) : Prop :=
+def KeySem (C : CharClass) (E : Env) (K : SemCtx) (U0 : CSet) : Prop :=
   ∀ t1 U1 ds1 t2 U2 ds2 key ren1 ren2 R,
-    GoodQ E K U0 t1 U1 ds1 → GoodQ E K U0 t2 U2 ds2 →
+    GoodQ C E K U0 t1 U1 ds1 → GoodQ C E K U0 t2 U2 ds2 →
     keyOf t1 (fvdOf ds1) = (key, ren1) → keyOf t2 (fvdOf ds2) = (key, ren2) →
-    ren1.length ≤ 1 → NoForeign ren1 ds1 → t1.isWild = false →
+    ren1.length ≤ 1 → ren2.length ≤ 1 → NoForeign ren1 ds1 → t1.isWild = false →
     Sem E R U1 (sat E.G K t1) →
     ∃ r', Eval.renameBack E U2 ren2 (sortRen ren1) R = .ok r' ∧ Sem E (r'.inter U2) U2 (sat E.G K t2)
 
 /-- HYPOTHESIS (keys of wild-card propositions): the key of `%w%` is `("%w%", ∅)`, and only `%w%` has it -/
-structure KeyWild (E : Env) (K : SemCtx) (U0 : CSet) : Prop where
-  wild_key : ∀ w ds, keyOf (.atom (.wild w)) (fvdOf ds) = (wkey w, [])
-  key_wild : ∀ t U ds w ren, GoodQ E K U0 t U ds → keyOf t (fvdOf ds) = (wkey w, ren) → t = .atom (.wild w)
+structure KeyWild (C : CharClass) (E : Env) (K : SemCtx) (U0 : CSet) : Prop where
+  wild_key : ∀ w ds, Lex.ValidId C w → keyOf (.atom (.wild w)) (fvdOf ds) = (wkey w, [])
+  key_wild : ∀ t U ds w ren, GoodQ C E K U0 t U ds → keyOf t (fvdOf ds) = (wkey w, ren) → t = .atom (.wild w)
 
 /-- the invariant of the evaluation context -/
-structure CacheOK (E : Env) (K : SemCtx) (U0 : CSet) (ctx : ECtx) : Prop where
+structure CacheOK (C : CharClass) (E : Env) (K : SemCtx) (U0 : CSet) (ctx : ECtx) : Prop where
   entries : ∀ key R rren, cacheGet key ctx.cache = some (R, rren) →
     (∃ w a, key = wkey w ∧ K.wild w = some a ∧ R = a ∧ rren = []) ∨
-    (∃ t1 U1 ds1, GoodQ E K U0 t1 U1 ds1 ∧ keyOf t1 (fvdOf ds1) = (key, rren) ∧ rren.length ≤ 1 ∧
+    (∃ t1 U1 ds1, GoodQ C E K U0 t1 U1 ds1 ∧ keyOf t1 (fvdOf ds1) = (key, rren) ∧ rren.length ≤ 1 ∧
       NoForeign rren ds1 ∧ t1.isWild = false ∧ Sem E R U1 (sat E.G K t1))
   wilds : ∀ w a, K.wild w = some a →
     cacheGet (wkey w) ctx.cache = some (a, []) ∧ (dupGet (wkey w) ctx.dups).isSome = true
   domRaw : ∀ l a, K.dom l = some a → ctx.domRaw.lookup l = some a
-  dupsOK : ∀ key n, dupGet key ctx.dups = some n → ∀ t U ds ren, GoodQ E K U0 t U ds →
+  dupsOK : ∀ key n, dupGet key ctx.dups = some n → ∀ t U ds ren, GoodQ C E K U0 t U ds →
     keyOf t (fvdOf ds) = (key, ren) → ren.length ≤ 1
 
 section
-variable {E : Env} (hE : EnvOK E) (hG : GraphWF E.G) {K : SemCtx} (hK : CtxOK E K) {U0 : CSet}
-  (hKS : KeySem E K U0) (hKW : KeyWild E K U0)
+variable {C : CharClass} {E : Env} (hE : EnvOK E) (hG : GraphWF E.G) {K : SemCtx} (hK : CtxOK E K) {U0 : CSet}
+  (hKS : KeySem C E K U0) (hKW : KeyWild C E K U0)
 include hE hG hK hKS hKW
 
 omit hE hG hK hKS hKW in
@@ -97,10 +99,10 @@ theorem sem_inter_unit {a U : CSet} {φ : Point → Prop} (ha : Sem E a U φ) : 
 /-- storing a freshly computed, semantically exact result keeps the invariant -/
 theorem store_ok {t : Tree} {U : CSet} {ds : List (Option Name)} {key : Key} {ren : List (Name × Name)}
     {save : Bool} {r : CSet} {ctx1 : ECtx}
-    (hq : GoodQ E K U0 t U ds) (hkey : keyOf t (fvdOf ds) = (key, ren)) (hnw : t.isWild = false)
+    (hq : GoodQ C E K U0 t U ds) (hkey : keyOf t (fvdOf ds) = (key, ren)) (hnw : t.isWild = false)
     (hsave : save = true → ren.length ≤ 1 ∧ NoForeign ren ds)
-    (hr : Sem E r U (sat E.G K t)) (hc1 : CacheOK E K U0 ctx1) :
-    CacheOK E K U0 (Eval.store save key ren r ctx1) ∧ (Eval.store save key ren r ctx1).fvd = ctx1.fvd := by
+    (hr : Sem E r U (sat E.G K t)) (hc1 : CacheOK C E K U0 ctx1) :
+    CacheOK C E K U0 (Eval.store save key ren r ctx1) ∧ (Eval.store save key ren r ctx1).fvd = ctx1.fvd := by
   unfold Eval.store
   cases hs : save with
   | false => simpa using hc1
@@ -127,8 +129,8 @@ theorem store_ok {t : Tree} {U : CSet} {ds : List (Option Name)} {key : Key} {re
 
 /-- the lookup phase: a hit returns an exact set and keeps the invariant; a miss reports the key -/
 theorem lookup_spec {t : Tree} {U : CSet} {ds : List (Option Name)} {ctx : ECtx}
-    (hq : GoodQ E K U0 t U ds) (hfvd : ctx.fvd = fvdOf ds) (hc : CacheOK E K U0 ctx) :
-    (∃ r ctx', Eval.lookup E t U ctx = .hit r ctx' ∧ Sem E r U (sat E.G K t) ∧ CacheOK E K U0 ctx' ∧
+    (hq : GoodQ C E K U0 t U ds) (hfvd : ctx.fvd = fvdOf ds) (hc : CacheOK C E K U0 ctx) :
+    (∃ r ctx', Eval.lookup E t U ctx = .hit r ctx' ∧ Sem E r U (sat E.G K t) ∧ CacheOK C E K U0 ctx' ∧
         ctx'.fvd = ctx.fvd) ∨
     (∃ save key ren, Eval.lookup E t U ctx = .miss save key ren ∧ keyOf t (fvdOf ds) = (key, ren) ∧
         t.isWild = false ∧ (save = true → ren.length ≤ 1 ∧ NoForeign ren ds)) := by
@@ -155,7 +157,7 @@ theorem lookup_spec {t : Tree} {U : CSet} {ds : List (Option Name)} {ctx : ECtx}
         | wild w =>
           obtain ⟨a', ha'⟩ := hq.wildsIn
           have := (hc.wilds w a' ha').2
-          have hkw := hKW.wild_key w ds
+          have hkw := hKW.wild_key w ds (by simpa [Lex.TreeOK] using hq.valid.1)
           rw [hkey] at hkw
           have : key = wkey w := (Prod.mk.inj hkw).1
           rw [this] at hd
@@ -178,7 +180,7 @@ theorem lookup_spec {t : Tree} {U : CSet} {ds : List (Option Name)} {ctx : ECtx}
             | wild w =>
               obtain ⟨a', ha'⟩ := hq.wildsIn
               have h1 := (hc.wilds w a' ha').1
-              have hkw := hKW.wild_key w ds
+              have hkw := hKW.wild_key w ds (by simpa [Lex.TreeOK] using hq.valid.1)
               rw [hkey] at hkw
               have : key = wkey w := (Prod.mk.inj hkw).1
               rw [this] at hcg
@@ -233,7 +235,7 @@ theorem lookup_spec {t : Tree} {U : CSet} {ds : List (Option Name)} {ctx : ECtx}
             | atom a =>
               cases a with
               | wild w =>
-                have hkw := hKW.wild_key w ds
+                have hkw := hKW.wild_key w ds (by simpa [Lex.TreeOK] using hq.valid.1)
                 rw [hkey] at hkw
                 have hkeq : key = wkey w := (Prod.mk.inj hkw).1
                 have := hKW.key_wild t1 U1 ds1 w rren hq1 (by rw [← hkeq]; exact hk1)
@@ -241,7 +243,7 @@ theorem lookup_spec {t : Tree} {U : CSet} {ds : List (Option Name)} {ctx : ECtx}
                 simp [Tree.isWild] at hnw1
               | _ => simp [Tree.isWild] at hw
             | _ => simp [Tree.isWild] at hw
-        obtain ⟨r', hrb, hsem⟩ := hKS t1 U1 ds1 t U ds key rren ren R hq1 hq hk1 hkey hlen1 hnf1 hnw1 hs1
+        obtain ⟨r', hrb, hsem⟩ := hKS t1 U1 ds1 t U ds key rren ren R hq1 hq hk1 hkey hlen1 (hc.dupsOK key n hd t U ds ren hq hkey) hnf1 hnw1 hs1
         rw [hrb]
         simp only [hnw, Bool.not_false, Bool.true_and]
         refine ⟨_, _, rfl, Sem.tab hE hsem, ?_, ?_⟩
@@ -279,7 +281,7 @@ theorem lookup_spec {t : Tree} {U : CSet} {ds : List (Option Name)} {ctx : ECtx}
 /-! ### the main induction -/
 
 omit hE hG hK hKS hKW in
-theorem CacheOK.fvd_irrel {ctx : ECtx} (f : DomMap) (h : CacheOK E K U0 ctx) : CacheOK E K U0 { ctx with fvd := f } :=
+theorem CacheOK.fvd_irrel {ctx : ECtx} (f : DomMap) (h : CacheOK C E K U0 ctx) : CacheOK C E K U0 { ctx with fvd := f } :=
   ⟨h.entries, h.wilds, h.domRaw, h.dupsOK⟩
 
 omit hE hG hK hKS hKW in
